@@ -57,12 +57,27 @@ GROUPS["C03"] = [dict(file=UT, name="UtestShell::" + n, coq="src_" + n, calls=_C
                   "assertCstrNoCaseContains", "assertLongsEqual", "assertUnsignedLongsEqual", "assertLongLongsEqual",
                   "assertUnsignedLongLongsEqual", "assertSignedBytesEqual", "assertPointersEqual", "assertFunctionPointersEqual",
                   "assertBinaryEqual", "assertBitsEqual", "assertEquals", "assertCompare"]]
+UPL = "src/Platforms/Gcc/UtestPlatform.cpp"
+GROUPS["C11"] = [
+    dict(file=UPL, name="GccPlatformSpecificRunTestInASeperateProcess", coq="src_runInSeparateProcess",
+         ghosts=[["evs", "list cevent"], ["forks", "list Z"], ["counts", "list Z"], ["waits", "list (Z * Z * Z)"], ["errno_", "Z"]],
+         calls={"PlatformSpecificFork": {"pop": "forks"}, "getFailureCount": {"pop": "counts"},
+                "PlatformSpecificWaitPid": {"wait": {"stream": "waits", "status": "status", "errno": "errno_"}},
+                "addFailure": {"add_failure": True}, "kill": {"event_args": "kill"}, "_exit": {"abort_args": "_exit"},
+                "runOneTestInCurrentProcess": {"event": '("runOneTestInCurrentProcess"%string, nil)'},
+                "SetTestFailureByStatusCode": {"trace_fn": "leaf_SetTestFailureByStatusCode {2}"}}),
+]
 TC = "src/CppUTest/TeamCityTestOutput.cpp"
 GROUPS["C20"] = [
     dict(file=TC, name="TeamCityTestOutput::printEscaped", coq="src_printEscaped", ghosts=[["out", "list N"]],
          calls={"printBuffer": {"ghost": "out", "update": "emit mem {0} out"}}),
 ]
 HEADERS = {
+    "C11": "From Coq Require Import String.\nFrom CppUVerif Require Import lib.CSem lib.CMem gen.Gen_LeafC11.\nLocal Open Scope Z_scope.\n"
+           "(* translated by tools/cxx2gal.py: the parent/child code of GccPlatformSpecificRunTestInASeperateProcess; fork(), "
+           "getFailureCount() and waitpid() take the next value of the ghost streams forks / counts / waits (a waitpid outcome is "
+           "(result, status, errno)); addFailure, kill, _exit and the run of the test in the child are ghost events; "
+           "SetTestFailureByStatusCode is the translated leaf of gen/Gen_LeafC11.v *)\n",
     "C03": "From Coq Require Import String.\nFrom CppUVerif Require Import lib.CSem lib.CMem lib.CEmit gen.Gen_LeafC13 gen.Gen_LoopC13.\nLocal Open Scope Z_scope.\n"
            "(* translated by tools/cxx2gal.py: the assert entry points of UtestShell; countCheck() is the ghost event ACount, "
            "failWith(XFailure(this, file, line, ...), terminator) the ghost event AFail \"XFailure\" file line after which the function is left "
